@@ -55,6 +55,10 @@ type Adv struct {
 	// Data > 0: the answer carries that many bytes of the peer's own data (its
 	// sequence numbers advance, and with PeerISS placed they cross a wrap point)
 	Data int `json:"data,omitempty"`
+	// Repeat > 0: the plain answer is followed by that many identical copies of itself
+	// (what a receiver answers to zero-window probes and keep-alives, or what the network
+	// duplicates): same acknowledgement, same window, no data
+	Repeat int `json:"repeat,omitempty"`
 }
 
 type SendCase struct {
@@ -404,6 +408,15 @@ func runSend(c SendCase) *evid.Failure {
 			evid.Label("send:answer-on-a-keepalive-probe")
 		} else {
 			p.Ack()
+			for r := 0; r < adv.Repeat; r++ {
+				p.Ack()
+			}
+			if adv.Repeat >= 2 {
+				evid.Label("send:answer-repeated-3-times-or-more")
+				if field == 0 {
+					evid.Label("send:closed-window-answer-repeated-3-times-or-more")
+				}
+			}
 		}
 		if adv.Replay > 0 && len(p.Sent) > adv.Replay {
 			if old := p.Sent[len(p.Sent)-1-adv.Replay].Seg; old.Flags == codec.ACK && len(old.Payload) == 0 {
@@ -509,6 +522,9 @@ func genSend(rt *rapid.T) SendCase {
 		a.Lose = rapid.IntRange(0, 9).Draw(rt, "lose") == 0
 		a.Replay = rapid.SampledFrom([]int{0, 0, 0, 0, 1, 2, 5}).Draw(rt, "replay")
 		a.OldSeq = rapid.IntRange(0, 5).Draw(rt, "old-seq") == 1
+		if rp := rapid.IntRange(0, 9).Draw(rt, "repeat"); rp == 0 || (a.Wnd < 5 && rp < 4) {
+			a.Repeat = rapid.SampledFrom([]int{1, 2, 2, 3, 5}).Draw(rt, "repeat-n")
+		}
 		if c.PlacePeer && rapid.IntRange(0, 2).Draw(rt, "peer-data") == 1 {
 			a.Data = rapid.SampledFrom([]int{1, 10, 200}).Draw(rt, "peer-data-len")
 		}
